@@ -97,7 +97,7 @@ func (c *Checker) writeEvidence(plans []runPlan, nviol int, known *KnownFindings
 	}
 	probes := map[string]int64{}
 	names := []string{"lock_wait", "switch_while_lock_held", "pool_two_out", "switch_after_atomic_store", "atomic_load_nil", "pool_recycled_handout",
-		"pool_fresh_despite_recycled", "mid_operation_gc", "once_contended"}
+		"pool_fresh_despite_recycled", "mid_operation_gc", "once_contended", "pool_object_handed_out_twice"}
 	for i, n := range names {
 		if i < len(a.Probes) {
 			probes[n] = a.Probes[i]
